@@ -89,6 +89,9 @@ Definition sx_stab (s : list (string * fval) * Z) : sx := SL [sx_record (fst s);
 Definition sx_stabs (r : list (list (string * fval) * Z) * option err) : sx :=
   SL [SL (map sx_stab (fst r)); sx_erropt (snd r)].
 
+(* the cursor schedule: position i of the list, 0 beyond it *)
+Definition g_adv (s : sx) : nat -> Z := fun i => nth i (map gI (gL s)) 0%Z.
+
 Definition dispatch (req : sx) : sx :=
   let l := gL req in
   let op := gS (nthx 0 l) in
@@ -107,9 +110,10 @@ Definition dispatch (req : sx) : sx :=
   else if op =? "wf_phdr" then sx_bool (wf_phdr (gbool a1) (gbool a2) (g_phdr a3))
   else if op =? "pad_to" then SI (pad_to (gI a1) (gI a2))
   (* model *)
-  else if op =? "section_notes" then sx_res sx_iter (section_notes_at (g_cfg a1) (gB a2) (gI a3))
-  else if op =? "segment_notes" then sx_res sx_iter (segment_notes_at (g_cfg a1) (gB a2) (gI a3))
-  else if op =? "section_stabs" then sx_res sx_stabs (section_stabs_at (g_cfg a1) (gB a2) (gI a3))
-  else if op =? "iter_notes" then sx_iter (iter_notes (g_cfg a1) (gB a2) (gI a3) (gI (nthx 4 l)))
+  (* model; last argument: the stream cursor at each resumption of the generator *)
+  else if op =? "section_notes" then sx_res sx_iter (section_notes_at (g_cfg a1) (gB a2) (g_adv (nthx 4 l)) (gI a3))
+  else if op =? "segment_notes" then sx_res sx_iter (segment_notes_at (g_cfg a1) (gB a2) (g_adv (nthx 4 l)) (gI a3))
+  else if op =? "section_stabs" then sx_res sx_stabs (section_stabs_at (g_cfg a1) (gB a2) (g_adv (nthx 4 l)) (gI a3))
+  else if op =? "iter_notes" then sx_iter (iter_notes (g_cfg a1) (gB a2) (g_adv (nthx 5 l)) (gI a3) (gI (nthx 4 l)))
   else if op =? "roundup" then SI (roundup (gI a1) (gI a2))
   else sx_err "unknown-op".
